@@ -383,9 +383,11 @@ func (p *podAssignCache) OnUpdate(oldObj, newObj interface{}) {
 	// prevent ghost load: the old node would otherwise permanently retain the
 	// pod's estimated resources in nodeDelta/nodeEstimated, inflating Filter
 	// and Score results for new pods targeting that node.
-	if oldPod, ok := oldObj.(*corev1.Pod); ok && oldPod != nil &&
-		oldPod.Spec.NodeName != "" && oldPod.Spec.NodeName != pod.Spec.NodeName {
-		p.unAssign(oldPod.Spec.NodeName, pod)
+	// The same applies when the update carries another UID (a delete and re-create of the same name that the
+	// informer merged into one update after a relist): the old pod is cached under its own UID.
+	if oldPod, ok := oldObj.(*corev1.Pod); ok && oldPod != nil && oldPod.Spec.NodeName != "" &&
+		(oldPod.Spec.NodeName != pod.Spec.NodeName || oldPod.UID != pod.UID) {
+		p.unAssign(oldPod.Spec.NodeName, oldPod)
 	}
 	switch oldPodInfo := p.getPodAssignInfo(pod.Spec.NodeName, pod); {
 	case oldPodInfo == nil: // pod was not cached
